@@ -61,8 +61,11 @@ Definition dur_display (ns : Z) : str :=
   let ms := Z.quot r5 1000000 in
   let r6 := r5 - ms * 1000000 in
   let us := Z.quot r6 1000 in
+  let nn := r6 - us * 1000 in
   let part (v : Z) (sym : String.string) : str := if v =? 0 then [] else Z_to_str v ++ lit sym in
-  part weeks "w" ++ part days "d" ++ part hours "h" ++ part mins "m" ++ part s "s" ++ part ms "ms" ++ part us "us".
+  (* a field always has a text: the empty duration is "0s"; nanoseconds are shown (fix 5af605b) *)
+  if ns =? 0 then lit "0s"
+  else part weeks "w" ++ part days "d" ++ part hours "h" ++ part mins "m" ++ part s "s" ++ part ms "ms" ++ part us "us" ++ part nn "ns".
 
 Fixpoint join_str (sep : str) (l : list str) : str :=
   match l with
